@@ -52,6 +52,7 @@ const (
 	maxWindowSize = segmentTreeCapacity
 
 	serverRespTimeout        = 10 * time.Second
+	closeOutputLockTimeout   = 1 * time.Second
 	sessionHeartbeatInterval = 5 * time.Second
 	sessionHeartbeatJitterMs = 1000
 
@@ -614,7 +615,20 @@ func (s *Session) writeChunk(b []byte) (n int, err error) {
 		time.Sleep(backPressureDelay) // add back pressure if queue is full
 	}
 
-	s.oLock.Lock()
+	// The output loop holds oLock while it writes to the network, which can
+	// take as long as the peer takes to drain a stream connection.
+	for !s.oLock.TryLock() {
+		select {
+		case <-s.closedChan:
+			return 0, io.EOF
+		case <-s.outputErr:
+			return 0, io.ErrClosedPipe
+		case <-timeC:
+			return 0, stderror.ErrTimeout
+		default:
+		}
+		time.Sleep(backPressureDelay)
+	}
 	ptr := b
 	for i := nFragment - 1; i >= 0; i-- {
 		select {
@@ -1310,7 +1324,15 @@ func (s *Session) closeWithError(err error) error {
 	if s.isState(sessionAttached) || s.isState(sessionEstablished) {
 		// Send closeSessionRequest, but don't wait for closeSessionResponse,
 		// because the underlay connection may be already broken.
-		s.oLock.Lock()
+		//
+		// The output loop holds oLock while it writes to the network. If the
+		// peer doesn't drain a stream connection that write, and with it the
+		// lock, can be stuck for as long as the connection lives. Close must
+		// not wait for that: give up sending the request instead.
+		outputLocked := s.lockOutputWithin(closeOutputLockTimeout)
+		if !outputLocked {
+			log.Debugf("%v output is stuck, closing without sending closeSessionRequest", s)
+		}
 		closeRequestSeq := s.nextSend.Load()
 		seg := &segment{
 			metadata: &sessionStruct{
@@ -1326,7 +1348,9 @@ func (s *Session) closeWithError(err error) error {
 		s.nextSend.Add(1)
 
 		var gracefulCloseSuccess bool
-		if gracefulClose {
+		if !outputLocked {
+			// Nothing can be sent.
+		} else if gracefulClose {
 			if !s.sendQueue.Insert(seg) {
 				s.oLock.Unlock()
 			} else {
@@ -1342,8 +1366,7 @@ func (s *Session) closeWithError(err error) error {
 		} else {
 			s.oLock.Unlock()
 		}
-		if !gracefulCloseSuccess {
-			s.oLock.Lock()
+		if outputLocked && !gracefulCloseSuccess && s.lockOutputWithin(closeOutputLockTimeout) {
 			if err := s.output(seg, s.RemoteAddr()); err != nil {
 				log.Debugf("output() failed: %v", err)
 			}
@@ -1360,6 +1383,18 @@ func (s *Session) closeWithError(err error) error {
 	log.Debugf("Closed %v", s)
 	metrics.CurrEstablished.Add(-1)
 	return nil
+}
+
+// lockOutputWithin acquires oLock unless it stays held for longer than d.
+func (s *Session) lockOutputWithin(d time.Duration) bool {
+	deadline := time.Now().Add(d)
+	for !s.oLock.TryLock() {
+		if time.Now().After(deadline) {
+			return false
+		}
+		time.Sleep(time.Millisecond)
+	}
+	return true
 }
 
 // sendWindowSize determines how many more packets this session can send.
